@@ -225,3 +225,94 @@ Proof.
     destruct (c && w_evict (ws_cfg s)); cbn [ws_callers with_callers]; rewrite nth_error_app2, Nat.sub_diag by lia; cbn; intros H; inversion H; subst; cbn; try discriminate.
     intros _. unfold timer_at_arrival. rewrite K. reflexivity.
 Qed.
+
+(* ---------- C13: the backlog timeout fires exactly at arrival + timeout (queue limiter) ---------- *)
+Lemma set_caller_nth l : forall i c j, nth_error (set_caller l i c) j = if Nat.eqb i j && Nat.ltb i (length l) then Some c else nth_error l j.
+Proof.
+  unfold set_caller. induction l as [|x r IH]; intros i c j.
+  - assert (E: Nat.ltb i (length (@nil caller)) = false) by (apply Nat.ltb_ge; cbn; lia). rewrite E, andb_false_r.
+    destruct i; cbn; destruct j; reflexivity.
+  - destruct i as [|i].
+    + cbn. destruct j; reflexivity.
+    + cbn [firstn skipn app length]. destruct j as [|j]; [reflexivity|]. cbn [nth_error Nat.eqb]. rewrite IH.
+      change (Nat.ltb (S i) (S (length r))) with (Nat.ltb i (length r)). reflexivity.
+Qed.
+Lemma set_caller_length l i c : length (set_caller l i c) = length l.
+Proof.
+  unfold set_caller. revert i. induction l as [|x r IH]; intros [|i]; cbn [firstn skipn app length]; try reflexivity.
+  f_equal. apply IH.
+Qed.
+
+Lemma refuse_nth s i j : nth_error (ws_callers (refuse s i)) j =
+  match nth_error (ws_callers s) i with
+  | Some c => if Nat.eqb i j then Some (mk_caller 2 (ws_now s) 0 (c_cancel c)) else nth_error (ws_callers s) j
+  | None => nth_error (ws_callers s) j
+  end.
+Proof.
+  unfold refuse. destruct (nth_error (ws_callers s) i) as [c|] eqn:E; [|reflexivity]. cbn [ws_callers with_callers].
+  rewrite set_caller_nth. assert (L: Nat.ltb i (length (ws_callers s)) = true).
+  { apply Nat.ltb_lt. apply nth_error_Some. congruence. }
+  rewrite L, andb_true_r. reflexivity.
+Qed.
+Lemma refuse_now s i : ws_now (refuse s i) = ws_now s /\ ws_busy (refuse s i) = ws_busy s.
+Proof. unfold refuse. destruct (nth_error _ _); split; reflexivity. Qed.
+
+Lemma due_ids_in l : forall k j t, In j (due_ids l k t) <-> (k <= j)%nat /\ exists c, nth_error l (j - k) = Some c /\ blocked c = true /\ c_due c = t.
+Proof.
+  induction l as [|c r IH]; intros k j t; cbn [due_ids].
+  - split; [intros []|]. intros (_ & c & H & _). destruct (j - k)%nat; discriminate.
+  - destruct (blocked c && (c_due c =? t)) eqn:B.
+    + apply andb_true_iff in B. destruct B as [B1 B2]. apply Z.eqb_eq in B2. cbn [In]. rewrite IH. split.
+      * intros [<-|(Hk & c' & Hc & Bc)].
+        -- split; [lia|]. exists c. rewrite Nat.sub_diag. auto.
+        -- split; [lia|]. exists c'. replace (j - k)%nat with (S (j - S k)) by lia. auto.
+      * intros (Hk & c' & Hc & Bc). destruct (Nat.eq_dec k j) as [->|Hne]; [left; reflexivity|right].
+        split; [lia|]. exists c'. replace (j - k)%nat with (S (j - S k)) in Hc by lia. auto.
+    + rewrite IH. split.
+      * intros (Hk & c' & Hc & Bc). split; [lia|]. exists c'. replace (j - k)%nat with (S (j - S k)) by lia. auto.
+      * intros (Hk & c' & Hc & Bc1 & Bc2). destruct (Nat.eq_dec k j) as [->|Hne].
+        -- rewrite Nat.sub_diag in Hc. cbn in Hc. inversion Hc; subst. rewrite Bc1, Z.eqb_refl in B. discriminate.
+        -- split; [lia|]. exists c'. replace (j - k)%nat with (S (j - S k)) in Hc by lia. auto.
+Qed.
+
+(* refusing a set of callers: exactly those change, to "refused now" *)
+Lemma fold_refuse_nth ids : forall s j, (forall i, In i ids -> nth_error (ws_callers s) i <> None) ->
+  nth_error (ws_callers (fold_left refuse ids s)) j =
+  if existsb (Nat.eqb j) ids then option_map (fun c => mk_caller 2 (ws_now s) 0 (c_cancel c)) (nth_error (ws_callers s) j)
+  else nth_error (ws_callers s) j.
+Proof.
+  induction ids as [|i r IH]; intros s j H; cbn [fold_left existsb]; [reflexivity|].
+  rewrite IH.
+  2:{ intros k Hk. rewrite refuse_nth. destruct (nth_error (ws_callers s) i); [|apply H; now right].
+      destruct (Nat.eqb i k); [discriminate|apply H; now right]. }
+  rewrite (proj1 (refuse_now s i)), refuse_nth.
+  destruct (nth_error (ws_callers s) i) as [c|] eqn:E; [|exfalso; apply (H i); [now left|exact E]].
+  destruct (Nat.eqb_spec j i) as [->|Hne].
+  - rewrite Nat.eqb_refl, E. cbn [orb option_map]. destruct (existsb _ r); reflexivity.
+  - destruct (Nat.eqb_spec i j); [congruence|]. cbn [orb]. reflexivity.
+Qed.
+
+(* what the timers firing at instant t do on the queue limiter: exactly the callers blocked with due = t are refused, at t *)
+Theorem fire_queue s t pref i c : w_kind (ws_cfg s) = KQueue -> nth_error (ws_callers s) i = Some c ->
+  nth_error (ws_callers (fire s t pref)) i = Some (if blocked c && (c_due c =? t) then mk_caller 2 t 0 (c_cancel c) else c) /\
+  ws_busy (fire s t pref) = ws_busy s.
+Proof.
+  intros K H. unfold fire. rewrite K. set (s0 := with_callers s (ws_busy s) t (ws_callers s)).
+  assert (Hids: forall k, In k (due_ids (ws_callers s0) 0 t) -> nth_error (ws_callers s0) k <> None).
+  { intros k Hk. apply due_ids_in in Hk. destruct Hk as (_ & c' & Hc & _). rewrite Nat.sub_0_r in Hc. cbn in *. congruence. }
+  split.
+  - rewrite (fold_refuse_nth _ s0 i Hids). cbn [ws_callers with_callers s0 ws_now]. rewrite H.
+    destruct (blocked c && (c_due c =? t)) eqn:B.
+    + assert (In i (due_ids (ws_callers s) 0 t)).
+      { apply due_ids_in. split; [lia|]. exists c. rewrite Nat.sub_0_r. apply andb_true_iff in B. destruct B as [B1 B2]. apply Z.eqb_eq in B2. auto. }
+      assert (E: existsb (Nat.eqb i) (due_ids (ws_callers s) 0 t) = true) by (apply existsb_exists; exists i; split; [assumption|apply Nat.eqb_refl]).
+      rewrite E. reflexivity.
+    + assert (E: existsb (Nat.eqb i) (due_ids (ws_callers s) 0 t) = false).
+      { apply Bool.not_true_is_false. intros E. apply existsb_exists in E. destruct E as (k & Hk & Ek). apply Nat.eqb_eq in Ek. subst k.
+        apply due_ids_in in Hk. destruct Hk as (_ & c' & Hc & B1 & B2). rewrite Nat.sub_0_r, H in Hc. inversion Hc; subst.
+        rewrite B1, Z.eqb_refl in B. discriminate. }
+      rewrite E. reflexivity.
+  - generalize (due_ids (ws_callers s0) 0 t). intros ids. assert (G: forall st, ws_busy (fold_left refuse ids st) = ws_busy st).
+    { induction ids as [|k r IH]; intros st; cbn; [reflexivity|]. rewrite IH. apply refuse_now. }
+    rewrite G. reflexivity.
+Qed.
